@@ -110,8 +110,8 @@ def all_cases(ctx):
     q = ctx.quick
     cases = []
     alphas = [1e-4, 0.1, 0.3] if q else [1e-6, 1e-4, 1e-2, 0.1, 0.3]
-    for mname, (fams, cond, _) in refhdr.MODELS.items():
-        n_dim = len(fams)
+    for mname, spec in refhdr.MODELS.items():
+        n_dim = 2 if spec == "custom" else len(spec[0])
         for alpha in alphas:
             for lk in ("generous", "tight", "reversed"):
                 for ds in grid_specs(n_dim, q):
